@@ -73,6 +73,7 @@ type FnCtx struct {
 	curBinds      []Val // captured values of the closure being called by contract
 	freshReach    map[string]string // reach condition under which each such object was allocated
 	freshT        map[string]types.Type // struct objects allocated by this function (incl. inlined callees)
+	rebind        map[string]string // contract name of a local -> its current name (locals.go)
 	curCallee     *ssa.Function   // callee of the contract call being applied (for volatile ghosts)
 	volatileNames map[string]bool // heap names havocked at a monitor acquisition (other threads' writes): exempt from the frame check
 	inAcquire     bool
